@@ -29,6 +29,7 @@ EXPLANATION += ' C13.R8 (callback contract): the attribute copy callbacks the lo
 ROUND2_EXPLANATION = (' C13.R9: an identity setter (re)creates the shared trace-identity block only when it is null (pinned). Shared C19.R7: every named constructor parameter of LoggerProvider / LoggerContext is used.')
 ROUND2_EXPLANATION += (" C13.R10: a string view built from a nullable name pointer (EventId::name_) is guarded by a null test of that pointer (D21, fixed). C13.R11: the API template overloads that receive a null record from CreateLogRecord return without dereferencing it. Shared C01.R5: every constructor of the batch log processor creates its queue with the configured max_queue_size.")
 ROUND2_EXPLANATION += (" C13.R3 also: the argument of SetResource originates from GetResource() of this logger's context and the argument of SetInstrumentationScope from this logger's own scope.")
+ROUND2_EXPLANATION += (' C13.R7 also: the view the simple processors hand to Export is span(&record, 1) - it starts at the parameter and has exactly one element.')
 EXPLANATION += ROUND2_EXPLANATION
 NOT_DECIDED = 'value equality at export; that every argument combination compiles to the documented setter beyond the instantiated ones.'
 
